@@ -894,9 +894,11 @@ class Interp(object):
         if not has_sym(item) and not has_sym(coll):
             return item in coll
         if isinstance(coll, (dict, set, frozenset)) and has_sym(item):
+            if kind_of(item) is None and not isinstance(item, tuple):
+                return z_or([v_eq(item, c) for c in coll])
             return V.member_of_concrete(item, coll)
         if isinstance(coll, (list, tuple)):
-            if has_sym(item) and not has_sym(coll) and all(isinstance(c, (str, bytes)) for c in coll):
+            if kind_of(item) is not None and has_sym(item) and not has_sym(coll) and all(isinstance(c, (str, bytes)) for c in coll):
                 return V.member_of_concrete(item, coll)
             return z_or([v_eq(item, c) for c in coll])
         ct = _class_attr(type(coll), "__contains__")
